@@ -22,6 +22,7 @@ import Driver.ExtDecline
 import Driver.Convert
 import Driver.ConvertH
 import Driver.ConvertX
+import Driver.CMFrag
 namespace Driver
 
 def handle (line : String) : String :=
@@ -51,6 +52,7 @@ def handle (line : String) : String :=
   | "convert" :: rest => handleConvert rest
   | "converth" :: rest => handleConvertH rest
   | "convertx" :: rest => handleConvertX rest
+  | "cmfrag" :: rest => handleCMFrag rest
   | _ => bad
 
 partial def loop (hin hout : IO.FS.Stream) : IO Unit := do
